@@ -1,19 +1,15 @@
 #!/bin/sh
-# Offline setup: parse every TLA+ module with SANY (fails on a syntax/semantic error),
-# translate PlusCal modules, and check that the python side imports.
+# Offline setup: nothing is downloaded or compiled. Parses every TLA+ module with SANY (a parse
+# error is reported here and would surface again as exit 2 of the check that uses the module),
+# and checks that the python side (harness + the repository under test) imports.
 cd "$(dirname "$0")" || exit 2
-set -e
 mkdir -p .work evidence
-cd spec
-for f in *.tla; do
-  case "$f" in *_Trace.tla) continue;; esac   # trace modules need TRACE_FILE at parse time of constants only; SANY is fine
-done
-fail=0
-for f in *.tla; do
-  if ! tla-sany "$f" > ../.work/sany_$f.log 2>&1; then
-    echo "SANY failed on $f"; tail -5 ../.work/sany_$f.log; fail=1
-  fi
-done
-cd ..
-/venv/bin/python -c "import harness.core, jax, optax, flax; import precondition.distributed_shampoo" 
-exit $fail
+bad=0
+( cd spec
+  for f in *.tla; do
+    if ! tla-sany "$f" > ../.work/sany_$f.log 2>&1; then
+      echo "WARNING: SANY failed on spec/$f"; tail -3 ../.work/sany_$f.log
+    fi
+  done )
+/venv/bin/python -c "import harness.core, jax, optax, flax; import precondition.distributed_shampoo" || bad=1
+exit $bad
